@@ -1096,10 +1096,11 @@ def replay(data):
                   f"{'delivered after ' + str(sec(got - c.sent[key])) + 's' if got is not None else 'DROPPED'}")
     else:
         for rn in ("R", "R2"):
-            for e in c.log[rn]:
-                print(f"  {sec(e[1]):8.4f}s {rn} {e[0]} hold#{e[2]} {e[3]}")
-            for s in c.samples[rn]:
-                print(f"  {sec(s[0]):8.4f}s {rn} capacity={s[1]} available={s[2]} waiters={s[3]} held={s[4]}")
+            rows = [(e[1], 0, f"{rn} {e[0]} hold#{e[2]} {e[3]}") for e in c.log[rn]]
+            rows += [(s[0], 1, f"{rn} sample: capacity={s[1]} available={s[2]} waiters={s[3]} held-by-harness={s[4]}")
+                     for s in c.samples[rn]]
+            for t, _o, txt in sorted(rows, key=lambda r: (r[0], r[1])):
+                print(f"  {sec(t):8.4f}s {txt}")
     for key, desc in viol:
         print(f"  !! {fingerprint(schedule, key)}: {desc}")
     want = _thaw(rep.get("key")) if rep.get("key") else None
